@@ -158,9 +158,14 @@ impl<'a> Parser<'a> {
         let mut cx = Context::new(self.origin);
         let mut state = State::StartLine;
         let mut stack = self.lexers.len();
+        // the origins of the including files: $INCLUDE never changes the origin of the parent file
+        let mut origins: Vec<Option<Name>> = Vec::new();
 
         'outer: while let Some((lexer, path)) = self.lexers.last_mut() {
-            while let Some(t) = lexer.next_token()? {
+            // a $INCLUDE entry on a last line without a line end is completed like any other
+            while let Some(t) = lexer.next_token()?.or_else(|| {
+                matches!(state, State::Include(Some(_))).then_some(Token::EOL)
+            }) {
                 state = match state {
                     State::StartLine => {
                         // current_name is not reset on the next line b/c it might be needed from the previous
@@ -243,6 +248,7 @@ impl<'a> Parser<'a> {
                             let input = fs::read_to_string(&include)?;
                             let lexer = Lexer::new(input);
                             self.lexers.push((lexer, Some(include)));
+                            origins.push(cx.origin.clone());
                             stack += 1;
                             state = State::StartLine;
                             continue 'outer;
@@ -327,6 +333,9 @@ impl<'a> Parser<'a> {
 
             stack -= 1;
             self.lexers.pop();
+            if let Some(origin) = origins.pop() {
+                cx.origin = origin;
+            }
         }
 
         //
